@@ -178,6 +178,9 @@ def execute(ctx, case):
         df.index = [f"row{(i * 7919) % len(df)}" for i in range(len(df))]
     if case.get("extra_col"):
         df.insert(0, "unrelated", np.arange(len(df))[::-1])
+    if len(gcols) > 1 and case["_seed"] % 3 == 0:
+        # the order in which the group columns are *listed* defines the key, not the order the frame happens to hold them in
+        df = df[list(df.columns)[::-1]]
     thr = np.asarray(case["thr"], dtype=float)
     form = case["form"]
     thr_arg = thr.tolist() if form == "list" else thr if form == "array" else float(thr[0]) if form == "scalar" else np.asarray(float(thr[0]))
